@@ -357,7 +357,27 @@ func (r *run) genSegs() [][]byte {
 	for i := range segs {
 		w := s.Choice("segwords", 7)
 		if s.Chance("bigseg", 1, 10) {
-			w = 30 + s.Choice("bigwords", 40)
+			// (widened from 40: the upper values give runs around the packed encoding's 255-word
+			// limits - words without a zero byte, or zero words up to the end of the segment)
+			bw := s.Choice("bigwords", 52)
+			if bw >= 40 {
+				run := []int{255, 256, 257, 258, 300, 513}[(bw-40)%6]
+				b := make([]byte, 8*(run+2))
+				b[0] = 0x11
+				if (bw-40)/6 == 0 {
+					for j := 8; j < 8*(run+1); j++ {
+						b[j] = byte(1 + (j*7+bw)%255)
+					}
+					b[len(b)-1] = 0x22
+					s.Probe("segment_with_long_dense_run")
+				} else {
+					b = b[:8*(run+1)]
+					s.Probe("segment_ending_in_long_zero_run")
+				}
+				segs[i] = b
+				continue
+			}
+			w = 30 + bw
 		}
 		b := make([]byte, 8*w)
 		for j := range b {
